@@ -6,8 +6,9 @@ open Scrapli Scrapli.Factory Scrapli.Factory.Heap Scrapli.Gen.Factory
 /-!
   Line protocol of the C18 model driver (every str travels as hex of its UTF-8 bytes, "-" = empty).
 
-  fac <0|1> <call> <env>      ->  ok <cls> <kwargs>  |  err <ExceptionClass>
-        runs `factoryNew (genTables async) async env call`
+  fac <0|1> <call> <env>      ->  ok <cls> <kwargs> <1|0|?>  |  err <ExceptionClass>
+        runs `factoryNew (genTables async) async env call`; the last field is `driverRejectsTransport` for the
+        generated signature of <cls> (? = class without generated signature)
   drv <0|1> <cls> <kwargs>    ->  1 | 0     `driverRejectsTransport` with the generated signature of <cls>
   heap <extra-defs> <ops>     ->  <defs> <conns>    runs `run` from `mkInit (coreDefs ++ extra)` and prints `view`
   tab                         ->  the generated tables (round-trip self check of the translator)
@@ -222,7 +223,12 @@ def handleLine (line : String) : String :=
     | some call, some env =>
       let async := a == "1"
       match factoryNew (genTables async) async env call with
-      | .ok (cls, kw) => s!"ok {hexStr cls} {encKw (norm kw)}"
+      | .ok (cls, kw) =>
+        -- also: would the constructor of that class reject the effective transport (Driver / AsyncDriver __init__)
+        let t := match plainSig cls with
+          | some sig => if driverRejectsTransport (genTables async) async sig kw then "1" else "0"
+          | none => "?"
+        s!"ok {hexStr cls} {encKw (norm kw)} {t}"
       | .error e => s!"err {e.name}"
     | _, _ => "bad-op"
   | ["drv", a, cls, kw] =>
